@@ -866,6 +866,13 @@ def run(ck):
     # before the next chunk announces the new properties (rule shared with C12)
     from . import C12
     C12.check_upd(ck, prog)
+    # "no match reaches farther back than the declared dictionary": the match finders stop at delta >= cyclic_size (C01)
+    from . import C01, reinit
+    C01.check_window(ck, prog)
+    # every Block is filtered from a fresh filter state (a decoder written from the specification starts each Block so)
+    ck.rule("C02-READFIRST", "filters: what the coding function can read before storing to it is stored by the init function on every path returning LZMA_OK")
+    reinit.check_read_first(ck, prog, "C02-READFIRST", files={"delta_common.c", "simple_coder.c"})
+    ck.floor("C02-READFIRST", 8)
     # the Check field of a Block is the CRC32/CRC64/SHA-256 of the data: the SHA-256 structure rules of C14
     from . import C14
     C14.check_sha(ck, prog)
